@@ -261,8 +261,8 @@ func (c *Ctx) Note(format string, args ...any) {
 func (c *Ctx) Floor(rule string, n int) {
 	// confirmed instance counts guard against a rule matching nothing; duplicated sites may legitimately be merged by
 	// a refactoring, so small counts only require non-vacuity and large ones half the confirmed number
-	if n >= 10 {
-		n = n / 2
+	if n >= 40 {
+		n = n / 4
 	} else if n > 1 {
 		n = 1
 	}
